@@ -12,5 +12,5 @@ Extraction "extract/bridge_core.ml"
   bytes msg_text
   parse_with grammar_prog grammar_entry
   core_of_tree
-  analyze an_files an_perrs an_core pf_path pf_len
+  analyze an_files an_perrs an_cores an_core an_shape pf_path pf_len
   an_state an_diagnostics an_goto an_references s_bad.
